@@ -7,7 +7,7 @@ S=$(cd "$1" && pwd)
 W=/tmp/seeds/verify_wt
 PIN=/verif/tools/run_pinned.sh
 if [ ! -d $W ]; then git -C /repo worktree add --detach $W HEAD >/dev/null 2>&1 || exit 9; fi
-git -C $W checkout -q -- . ; git -C $W checkout -q --detach $(git -C /repo rev-parse HEAD); git -C $W clean -fdq -e _b -e Bin -e '_b.*' >/dev/null 2>&1
+git -C $W checkout -q -- . ; git -C $W checkout -q --detach ${BASE:-$(git -C /repo rev-parse HEAD)}; git -C $W clean -fdq -e _b -e Bin -e '_b.*' >/dev/null 2>&1
 rm -rf $W/seed_out; cp -r $S $W/seed_out   # some demos look for their sources under <worktree>/seed_out
 echo "== baseline build + demo (expect exit 0)"
 JOBS=${JOBS:-16} $PIN $W || exit 3
